@@ -114,7 +114,7 @@ ModOps ==
   \cup {Op("AddReplace", <<"example.com/a", ov, "../local", "">>) : ov \in {"", "v1.1.0"}}
   \cup {Op("AddReplace", <<"example.com/b", "", "../o'neil/b", "">>)}
   \cup {Op("DropReplace", <<p, ov>>) : p \in {"example.com/a", "example.com/b"}, ov \in {"", "v1.0.0"}}
-  \cup {Op("AddRetract", <<lo, hi, r>>) : lo \in {"v1.0.0"}, hi \in {"v1.0.0", "v1.1.0"}, r \in {"", "newwhy", "two\nlines"}}
+  \cup {Op("AddRetract", <<lo, hi, r>>) : lo \in {"v1.0.0"}, hi \in {"v1.0.0", "v1.1.0"}, r \in {"", "newwhy", "two\nlines", "para one\n\npara two"}}
   \cup {Op("AddRetract", <<"v1.2.0", "v1.2.0", "">>), Op("AddRetract", <<"v2.0.0", "v2.0.0", "">>), Op("AddRetract", <<"v1.0", "v1.0.0", "x">>)}
   \cup {Op("DropRetract", <<lo, hi>>) : lo \in {"v1.0.0"}, hi \in {"v1.0.0", "v1.1.0"}} \cup {Op("DropRetract", <<"v1.1.0", "v1.1.0">>)}
   \cup {Op("AddTool", <<p>>) : p \in {"example.com/t/one", "example.com/t/three"}} \cup {Op("DropTool", <<p>>) : p \in {"example.com/t/one", "example.com/t/two"}}
